@@ -240,12 +240,16 @@ def run(tier):
     for d in errors:
         if ("panicked" in d["message"]) and not any(s["primary"] and module_of_file(s["file"]) for s in d["spans"]):
             rep.add("W-PANIC", "neg/unattributed panic", "proc-macro panic without a module span: %s" % d["message"])
-    # ---- (c) every positive witness (hand-written corpus and the mode x option cross product) must expand
+    # ---- (c) every positive witness (hand-written corpus, the mode x option cross product, the trait shapes) must expand
     #      to tokens that parse, without a panic
     from ..facts import parse_or_panic
     from ..crossgen import load_cross
     for cfg in (["plain", "unimock_test"] if tier == "quick" else ["plain", "test", "unimock", "unimock_test"]):
-        for ld in (load(rep, "pos", cfg), load_cross(rep, cfg, tier)):
+        corpora = [load(rep, "pos", cfg), load_cross(rep, cfg, tier)]
+        if cfg == "plain":
+            from ..traitgen import load_traitseq
+            corpora.append(load_traitseq(rep, cfg, tier))
+        for ld in corpora:
             for mod, dl in ld.failures.items():
                 for d in dl:
                     if parse_or_panic(d):
